@@ -959,7 +959,10 @@ def known_finding(case, obs, model):
         import re
         items = {it[2] for m in D["mods"] for it in m["items"] if it[2] is not None}
         base = re.sub(r"\$\d+$", "", n)
-        if caller == "wire" and (hits >= 2 or (hits == 1 and n in user)):
+        # names the module may already hold under this spelling: signals, explicit port names, IOPorts (and their
+        # de-duplicated forms <given>$<k>)
+        given = user | {p[2] for p in D["ports"] if p[2] is not None} | {x["n"] for x in D["ios"]}
+        if caller == "wire" and (hits >= 2 or (hits == 1 and (n in given or base in given))):
             return "C07-field-wire-name-collision"
         if caller in ("cell", "memory") and hits >= 1 and (n in items or base in items):
             # same mechanism, seen from the other side: a submodule / instance / memory whose (reserved) name equals a
@@ -1955,8 +1958,8 @@ def gen_cases(tier, seed):
         cases.append({"kind": "design_text", "why": why, "text": text})
     for why, text in HAND_NEG:
         cases.append({"kind": "neg", "why": why, "text": text})
-    n_designs = 260 if not thorough else 2000
-    n_mut_src = 12 if not thorough else 100
+    n_designs = 260 if not thorough else 1000
+    n_mut_src = 12 if not thorough else 40
     made = 0
     skipped = 0
     skipped_by = {}
@@ -2009,7 +2012,7 @@ def gen_cases(tier, seed):
     for n in range(0, 5):
         for ws in itertools.product(alpha, repeat=n):
             seqs.append([[], list(ws)])
-    for _ in range(400 if not thorough else 8000):
+    for _ in range(400 if not thorough else 3000):
         pool = ["a", "b", "c", "a$1", "a$2", "a$3", "a$4", "b$2", "b$3", "a$2$3", "clk", "rst", "", "$", "a$"]
         res = sorted(set(rng.choice(pool) for _ in range(rng.randrange(0, 4))))
         seqs.append([res, [rng.choice(pool) for _ in range(rng.randrange(1, 8))]])
